@@ -211,6 +211,250 @@ theorem C03_partial_E (p : Params) (ev : Nat → List Ev) (N : Nat) (h1 : 1 ≤ 
   rw [f.1, f.2.1, f.2.2.2.2.2.1, f.2.2.2.2.2.2.1, f.2.2.2.2.2.2.2.2.1]
   exact h
 
+/-! ### the first clause, unconditionally -/
+
+/-- no emission (repairable or not, any parameters) is ever active longer than in the no-LDAR run of
+the same scenario -/
+theorem C03_le_baseline_all (p : Params) (ev : Nat → List TagEv) (N : Nat) :
+    (run p ev N).activeDays ≤ (baseline p N).activeDays := by
+  cases hr : p.repairable
+  · exact Int.le_of_eq (C03_nonrepairable p hr ev N).2.1
+  · exact C03_le_baseline p hr ev N
+
+theorem C03_le_baseline_all_E (p : Params) (ev : Nat → List Ev) (N : Nat) :
+    (runE p ev N).activeDays ≤ (baseline p N).activeDays := by
+  have f := runE_fields p ev N
+  simp only at f
+  rw [f.2.1]
+  exact C03_le_baseline_all p (fun d => tagsOf (ev d)) N
+
+/-- C02's "program totals" clause over *all* leaks of a program (rate-weighted, as the summary files
+report them): repairable persistent leaks contribute by `C02_partial`, non-repairable leaks (persistent
+or intermittent) by `C03_nonrepairable` (same emitted days as without LDAR, mitigation 0).  Only
+intermittent *repairable* leaks are excluded (known finding F4). -/
+theorem C02_totals_all (ls : List (Params × (Nat → List TagEv) × Int)) (N : Nat)
+    (h : ∀ x ∈ ls, x.1.repairable = false ∨ x.1.intermittent = false) :
+    (ls.map (fun x => x.2.2 * emitDays x.1 (run x.1 x.2.1 N))).sum
+      + (ls.map (fun x => x.2.2 * mitDays x.1 (run x.1 x.2.1 N) (summaryEndArg N))).sum
+      = (ls.map (fun x => x.2.2 * emitDays x.1 (baseline x.1 N))).sum := by
+  induction ls with
+  | nil => simp
+  | cons x xs ih =>
+    have hx := h x (by simp)
+    have ih' := ih (fun y hy => h y (by simp [hy]))
+    simp only [List.map_cons, List.sum_cons]
+    have key : emitDays x.1 (run x.1 x.2.1 N) + mitDays x.1 (run x.1 x.2.1 N) (summaryEndArg N)
+        = emitDays x.1 (baseline x.1 N) := by
+      cases hr : x.1.repairable
+      · have := C03_nonrepairable x.1 hr x.2.1 N
+        rw [this.2.2.1, this.2.2.2.2.2]; omega
+      · rcases hx with hx | hx
+        · rw [hr] at hx; cases hx
+        · exact (C02_partial x.1 x.2.1 N hr hx).1
+    rw [← key, Int.mul_add]
+    omega
+
+/-! ### "never worsens" in emitted days (intermittent sources: the prefix lemma) -/
+
+/-- what the intermittency automaton carries -/
+def iproj (s : State) : Int × Bool × Int × Int × Int :=
+  (s.activeDays, s.emitting, s.daysEmitting, s.onCount, s.offCount)
+
+/-- prefix relation between a program run `r` and the no-LDAR run `b` of the same repairable leak:
+as long as the program run is alive the two agree on the whole intermittency automaton; once the
+program run has ended its emitting days are frozen while the baseline's can only grow -/
+def Pre (r b : State) : Prop :=
+  (r.status = .inactive → b.status = .inactive ∧ iproj r = iproj b) ∧
+  (r.status = .active → b.status = .active ∧ iproj r = iproj b) ∧
+  (r.status = .repaired → r.daysEmitting ≤ b.daysEmitting) ∧
+  r.status ≠ .expired ∧
+  (b.status ≠ .repaired → b.tagged = false)
+
+theorem tags_status_iproj (p : Params) (d : Int) (evs : List TagEv) (s : State) :
+    (evs.foldl (fun s e => tag p d e s) s).status = s.status ∧
+    iproj (evs.foldl (fun s e => tag p d e s) s) = iproj s := by
+  induction evs generalizing s with
+  | nil => exact ⟨rfl, rfl⟩
+  | cons e evs ih =>
+    simp only [List.foldl_cons]
+    have h1 : (tag p d e s).status = s.status ∧ iproj (tag p d e s) = iproj s := by
+      unfold iproj tag detectRec; grind
+    rw [(ih _).1, (ih _).2]; exact h1
+
+theorem toggle_mono (p : Params) (s : State) : s.daysEmitting ≤ (toggle p s).daysEmitting := by
+  unfold toggle; grind
+
+theorem update_mono (p : Params) (s : State) : s.daysEmitting ≤ (update p s).daysEmitting := by
+  have t1 := toggle_mono p
+  have tf := toggle_frame p
+  unfold update endedAt
+  grind
+
+theorem toggle_iproj (p : Params) (s s' : State) (h : iproj s = iproj s') :
+    iproj (toggle p s) = iproj (toggle p s') := by
+  unfold iproj at *
+  simp only [Prod.mk.injEq] at h
+  obtain ⟨h1, h2, h3, h4, h5⟩ := h
+  unfold toggle
+  simp only [h1, h2, h3, h4, h5]
+  grind
+
+theorem day_pre (p : Params) (hr : p.repairable = true) (d : Int) (evs : List TagEv) (r b : State)
+    (h : Pre r b) : Pre (day p d evs r) (day p d [] b) := by
+  unfold day
+  simp only [List.foldl_nil]
+  obtain ⟨hs, hi⟩ := tags_status_iproj p d evs (activate p d r)
+  generalize (evs.foldl (fun s e => tag p d e s) (activate p d r)) = m at hs hi
+  unfold iproj at hi
+  simp only [Prod.mk.injEq] at hi
+  obtain ⟨g1, g2, g3, g4, g5⟩ := hi
+  -- mid-day relation
+  have hm : Pre m (activate p d b) := by
+    obtain ⟨h1, h2, h3, h4, h5⟩ := h
+    by_cases hin : r.status = .inactive
+    · obtain ⟨hb, hij⟩ := h1 hin
+      unfold iproj at hij
+      simp only [Prod.mk.injEq] at hij
+      obtain ⟨e1, e2, e3, e4, e5⟩ := hij
+      have hbt := h5 (by rw [hb]; decide)
+      by_cases hst : p.start ≤ d
+      · have ea : activate p d r = { r with status := .active, emitting := if p.intermittent then true else r.emitting } := by
+          unfold activate; simp [hin, hst]
+        have eb : activate p d b = { b with status := .active, emitting := if p.intermittent then true else b.emitting } := by
+          unfold activate; simp [hb, hst]
+        rw [ea] at hs g1 g2 g3 g4 g5
+        rw [eb]
+        unfold Pre iproj
+        simp only [Prod.mk.injEq]
+        simp only at hs g1 g2 g3 g4 g5
+        grind
+      · have ea : activate p d r = r := by unfold activate; simp [hst]
+        have eb : activate p d b = b := by unfold activate; simp [hst]
+        rw [ea] at hs g1 g2 g3 g4 g5
+        rw [eb]
+        unfold Pre iproj
+        simp only [Prod.mk.injEq]
+        grind
+    · have ea : activate p d r = r := by unfold activate; simp [hin]
+      rw [ea] at hs g1 g2 g3 g4 g5
+      have hbs : b.status ≠ .inactive → activate p d b = b := by
+        intro hb; unfold activate; simp [hb]
+      have hbi : b.status = .inactive → (activate p d b).status ≠ .repaired ∧ (activate p d b).tagged = b.tagged := by
+        intro hb; unfold activate; split <;> simp_all
+      have hde : (activate p d b).daysEmitting = b.daysEmitting := by unfold activate; split <;> rfl
+      unfold iproj at h1 h2
+      simp only [Prod.mk.injEq] at h1 h2
+      unfold Pre iproj
+      simp only [Prod.mk.injEq]
+      refine ⟨by grind, ?_, by grind, by grind, ?_⟩
+      · intro hact
+        rw [hs] at hact
+        obtain ⟨hb, hij⟩ := h2 hact
+        rw [hbs (by rw [hb]; decide)]
+        grind
+      · intro hne
+        by_cases hb : b.status = .inactive
+        · rw [(hbi hb).2]; exact h5 (by rw [hb]; decide)
+        · rw [hbs hb] at hne ⊢; exact h5 hne
+  clear hs g1 g2 g3 g4 g5
+  generalize activate p d b = b' at hm
+  unfold Pre at hm
+  obtain ⟨h1, h2, h3, h4, h5⟩ := hm
+  have um := update_mono p b'
+  by_cases hact : m.status = .active
+  · obtain ⟨hb, hij⟩ := h2 hact
+    have hbt := h5 (by rw [hb]; decide)
+    have hij' := hij
+    unfold iproj at hij'
+    simp only [Prod.mk.injEq] at hij'
+    obtain ⟨e1, e2, e3, e4, e5⟩ := hij'
+    by_cases hnat : m.activeDays + 1 + b4 p ≥ p.nrd
+    · -- both end (the program run possibly by a program repair): emitting days frozen on both sides
+      have hb' : update p b' = { b' with activeDays := b'.activeDays + 1, tagged := true, by_ := .natural, status := .repaired, endDate := some (p.start + (b'.activeDays + 1 + b4 p)) } := by
+        unfold update endedAt; simp [hb, hr, hbt]; omega
+      have hr' : (update p m).status = .repaired ∧ (update p m).daysEmitting = m.daysEmitting := by
+        unfold update endedAt; simp only [hact, hr]; grind
+      unfold Pre
+      rw [hb']
+      grind
+    · have hb' : update p b' = toggle p { b' with activeDays := b'.activeDays + 1 } := by
+        unfold update endedAt; simp [hb, hr, hbt]; omega
+      by_cases hrep : m.tagged = true ∧ m.dst + 1 ≥ p.repairDelay + m.trd
+      · have hr' : (update p m).status = .repaired ∧ (update p m).daysEmitting = m.daysEmitting := by
+          unfold update endedAt; simp only [hact, hr]; grind
+        have tfb := toggle_frame p { b' with activeDays := b'.activeDays + 1 }
+        unfold Pre
+        refine ⟨by grind, by grind, ?_, by grind, ?_⟩
+        · intro _; rw [hr'.2, e3]; exact um
+        · intro _; rw [hb', tfb.2.2.1]; exact hbt
+      · have hr' : update p m = toggle p (if m.tagged then { m with activeDays := m.activeDays + 1, dst := m.dst + 1 } else { m with activeDays := m.activeDays + 1 }) := by
+          unfold update endedAt; simp only [hact, hr]; grind
+        have tfb := toggle_frame p { b' with activeDays := b'.activeDays + 1 }
+        have tfm := toggle_frame p (if m.tagged then { m with activeDays := m.activeDays + 1, dst := m.dst + 1 } else { m with activeDays := m.activeDays + 1 })
+        have tij := toggle_iproj p (if m.tagged then { m with activeDays := m.activeDays + 1, dst := m.dst + 1 } else { m with activeDays := m.activeDays + 1 }) { b' with activeDays := b'.activeDays + 1 } (by unfold iproj; grind)
+        unfold Pre
+        rw [hr', hb', tij]
+        refine ⟨by grind, by grind, by grind, by grind, ?_⟩
+        intro _; rw [tfb.2.2.1]; exact hbt
+  · have hm' : update p m = m := by unfold update; simp [hact]
+    rw [hm']
+    unfold Pre
+    refine ⟨?_, fun h => absurd h hact, ?_, h4, ?_⟩
+    · intro hin
+      obtain ⟨hb, hij⟩ := h1 hin
+      have : update p b' = b' := by unfold update; simp [hb]
+      rw [this]; exact ⟨hb, hij⟩
+    · intro hrp; exact Int.le_trans (h3 hrp) um
+    · intro hne
+      have tf := toggle_frame p
+      have hbt := h5
+      unfold update endedAt at hne ⊢
+      simp only [hr] at hne ⊢
+      grind
+
+theorem run_pre (p : Params) (hr : p.repairable = true) (ev : Nat → List TagEv) (n : Nat) :
+    Pre (run p ev n) (baseline p n) := by
+  induction n with
+  | zero => unfold Pre baseline run init iproj; simp
+  | succ n ih => exact day_pre p hr n (ev n) _ _ ih
+
+/-- "never worsens" in emitted days (what the records report as emitted volume), every emission -/
+theorem C03_emit_le_baseline (p : Params) (ev : Nat → List TagEv) (N : Nat) :
+    emitDays p (run p ev N) ≤ emitDays p (baseline p N) := by
+  cases hr : p.repairable
+  · exact Int.le_of_eq (C03_nonrepairable p hr ev N).2.2.1
+  · unfold emitDays
+    cases hi : p.intermittent
+    · simp only [Bool.false_eq_true, if_false]; exact C03_le_baseline p hr ev N
+    · simp only [if_true]
+      have h := run_pre p hr ev N
+      unfold Pre iproj at h
+      obtain ⟨h1, h2, h3, h4, _⟩ := h
+      cases hs : (run p ev N).status
+      · have := (h1 hs).2; simp only [Prod.mk.injEq] at this; omega
+      · have := (h2 hs).2; simp only [Prod.mk.injEq] at this; omega
+      · exact h3 hs
+      · exact absurd hs h4
+
+
+theorem C03_emit_le_baseline_E (p : Params) (ev : Nat → List Ev) (N : Nat) :
+    emitDays p (runE p ev N) ≤ emitDays p (baseline p N) := by
+  have f := runE_fields p ev N
+  simp only at f
+  have h := C03_emit_le_baseline p (fun d => tagsOf (ev d)) N
+  unfold emitDays at *
+  rw [f.2.1, f.2.2.2.2.2.2.2.2.1]
+  exact h
+
+/-- non-vacuity of the prefix lemma: an intermittent (2 on / 1 off) leak repaired by the program on
+day 3 has emitted 2 days, the same leak emits 7 days without LDAR -/
+example :
+    let p : Params := { start := 0, nrd := 10, repairDelay := 1, repairable := true,
+                        intermittent := true, activeDur := 2, inactiveDur := 1 }
+    let ev : Nat → List TagEv := fun d => if d = 2 then [{ company := 1, trd := 0 }] else []
+    emitDays p (run p ev 12) = 2 ∧ emitDays p (baseline p 12) = 6 ∧ (run p ev 12).status = .repaired := by
+  decide +kernel
+
 /-- Known finding F3: an emission generated exactly `duration` days before the period (the earliest
 pre-period start the generator draws) is active on the first simulated day, one day beyond its
 configured duration. -/
